@@ -185,7 +185,7 @@ def cleanup_program(fn):
 
 def generate(repo):
     lines = ['(* GENERATED by tools/py2coq/gen_persist.py from pyworkers/persistent_{thread,process,remote}.py - do not edit *)',
-             'From PW Require Import Persist.Instr.', '']
+             'From Coq Require Import List.', 'Import ListNotations.', 'From PW Require Import Persist.Instr.', '']
     for kind, fn, cls in KINDS:
         tree = ast.parse(open(f'{repo}/pyworkers/{fn}').read())
         c = find_class(tree, cls)
